@@ -35,6 +35,8 @@ def random_pos(st, p, rng, allow_bad=False, oob=True):
         return {"t": "idx", "v": len(kids) + rng.randint(1, 2)}   # beyond the end: appended or refused-unchanged
     if r < 0.95 or not allow_bad:
         return {"t": "node", "v": rng.choice(kids)}
+    if rng.random() < 0.25:
+        return {"t": "other", "v": 0}       # neither bool, int nor node
     others = [i for i in range(1, st["n"] + 1) if st["par"][i - 1] != -1 and i not in kids]
     if others:
         return {"t": "node", "v": rng.choice(others)}
